@@ -30,7 +30,7 @@ RULE = ('cases are (response kind, method, header set) over a scenario applicati
         'distinct by hash of the case')
 ASSUMPTIONS = ['input-side assertions of the validator (how Werkzeug reads wsgi.input) are not attributed to clastic',
                'for non-unique middleware types the number of wrapper applications is not fixed by the statement (O5); order is checked']
-REQUIRED_REACH = ['accept-charset-sent', 'validated:plain', 'validated:stream', 'validated:rendered', 'validated:static', 'validated:staticroute',
+REQUIRED_REACH = ['schedules:first-requests', 'accept-charset-sent', 'validated:plain', 'validated:stream', 'validated:rendered', 'validated:static', 'validated:staticroute',
                   'validated:304', 'validated:redirect', 'validated:404', 'validated:405', 'validated:500', 'validated:debug-500',
                   'validated:debug-404', 'validated:meta', 'validated:gzip', 'validated:cache', 'validated:head', 'validated:post',
                   'files-opened', 'files-closed-after-close', 'wrapper-stacks:depth>=2', 'wrapper-stacks:embedded',
@@ -595,14 +595,18 @@ def judge_reroute(sh, rng):
     if lazy:
         sh.hit('reroute:lazy-target')
     mode = rng.pick(['redirect', 'redirect', 'rewrite', 'rewrite', 'strict'])
+    # application options that have nothing to do with rerouting (the debug flag picks the error pages)
+    appkw = rng.pick([{}, {}, {'debug': True}, {'debug': False}])
+    if appkw.get('debug'):
+        sh.hit('reroute:application-in-debug-mode')
     branch = rng.chance(0.5)
     pattern = '/go/<x*>/' if branch else '/go/<x*>'
     if how == 'raised':
         def ep():
             raise RerouteWSGI(target)
-        app = Application([Route(pattern, lambda x: ep())], slash_mode=mode)
+        app = Application([Route(pattern, lambda x: ep())], slash_mode=mode, **appkw)
     elif how == 'endpoint':
-        app = Application([Route(pattern, RerouteWSGI(target))], slash_mode=mode)
+        app = Application([Route(pattern, RerouteWSGI(target))], slash_mode=mode, **appkw)
     elif how == 'endpoint-with-render':
         # the route has a render side too (a callable, or an argument the application's render factory interprets, also
         # through an embedding): a reroute is not a context - the target answers, nothing is rendered
@@ -612,11 +616,11 @@ def judge_reroute(sh, rng):
         if rk in ('factory', 'embedded-factory'):
             def factory(arg):
                 return lambda context: Response('rendered %s %r' % (arg, context))
-            inner = Application([Route(pattern, RerouteWSGI(target), 'page.html')], render_factory=factory, slash_mode=mode)
-            app = inner if rk == 'factory' else Application([('/', inner)], render_factory=factory, slash_mode=mode)
+            inner = Application([Route(pattern, RerouteWSGI(target), 'page.html')], render_factory=factory, slash_mode=mode, **appkw)
+            app = inner if rk == 'factory' else Application([('/', inner)], render_factory=factory, slash_mode=mode, **appkw)
         else:
             rn = {'basic': render_basic, 'json': render_json, 'lambda': (lambda context: Response('rendered %r' % (context,)))}[rk]
-            app = Application([Route(pattern, RerouteWSGI(target), rn)], slash_mode=mode)
+            app = Application([Route(pattern, RerouteWSGI(target), rn)], slash_mode=mode, **appkw)
     elif how == 'raised-in-with-block':
         # application code commonly runs inside context managers (transactions, timers, locks): the exception that
         # carries the reroute passes through their __exit__ on its way out
@@ -632,7 +636,7 @@ def judge_reroute(sh, rng):
         def ep():
             with timed():
                 raise RerouteWSGI(target)
-        app = Application([Route(pattern, lambda x: ep())], slash_mode=mode)
+        app = Application([Route(pattern, lambda x: ep())], slash_mode=mode, **appkw)
     elif how in ('endpoint-below-with-block', 'endpoint-below-try-finally'):
         import contextlib
 
@@ -649,12 +653,12 @@ def judge_reroute(sh, rng):
                     return next()
                 finally:
                     seen['finally'] = True
-        app = Application([Route(pattern, RerouteWSGI(target))], middlewares=[W()], slash_mode=mode)
+        app = Application([Route(pattern, RerouteWSGI(target))], middlewares=[W()], slash_mode=mode, **appkw)
     else:
         class M(Middleware):
             def request(self, next):
                 raise RerouteWSGI(target)
-        app = Application([Route(pattern, lambda x: Response('never'))], middlewares=[M()], slash_mode=mode)
+        app = Application([Route(pattern, lambda x: Response('never'))], middlewares=[M()], slash_mode=mode, **appkw)
     method = rng.pick(['GET', 'POST', 'HEAD', 'PUT'])
     # canonical and non-canonical spellings; a slash redirect (redirect mode, branch, non-canonical) and a strict miss
     # legitimately never reach the target
@@ -697,10 +701,68 @@ def judge_reroute(sh, rng):
 def plan(tier, seed):
     return [{'label': 'scn-%d' % i, 'index': i, 'rounds': 3 if tier == 'quick' else 40,
              'wrappers': 120 if tier == 'quick' else 6000, 'reroutes': 60 if tier == 'quick' else 3000, 'timeout': 7200}
-            for i in range(NSHARDS)]
+            for i in range(NSHARDS)] + [{'label': 'first-requests', 'kind': 'first-requests', 'timeout': 3600}]
+
+
+def first_requests(sh, spec):
+    """The first requests of an application's life arrive together (a threaded server right after start-up): every
+    single-preemption schedule of two requests on an application that has never served one.  Each answer - and every later one -
+    passes each middleware's WSGI wrapper exactly once, outermost first, and start_response is called once."""
+    import os
+    from clastic import Application, Route, Response, Middleware
+    from .. import sched
+    from ..common import REPO
+    roots = (os.path.join(REPO, 'clastic') + os.sep, '<sinter generated')
+
+    def wrapper_mw(label):
+        class W(Middleware):
+            def request(self, next):
+                return next()
+
+            def wsgi_wrapper(self, wsgi_app):
+                def wrapped(environ, start_response):
+                    environ.setdefault('vt.wrappers', []).append(label)
+                    return wsgi_app(environ, start_response)
+                return wrapped
+        W.__name__ = 'W_' + label
+        return W()
+
+    def build():
+        return Application([Route('/a', lambda: Response('a')), Route('/b/<x>', lambda x: Response('b' + x), middlewares=[wrapper_mw('route')])],
+                           middlewares=[wrapper_mw('outer'), wrapper_mw('inner')])
+
+    def job(app, path):
+        def run():
+            env = probe.make_environ('GET', path)
+            ex = probe.call_wsgi(app, env)
+            return ex, list(env.get('vt.wrappers') or [])
+        return run
+    want = {p: job(build(), p)() for p in ('/a', '/b/1')}
+    want = {p: (ex.status, ex.body, w) for p, (ex, w) in want.items()}
+    n_points = sched.count_points(job(build(), '/a'), roots)
+    for k in range(1, n_points + 1):
+        app = build()
+        s = sched.Scheduler(2, sched.preempt_once(k), roots)
+        res = s.run([job(app, '/a'), job(app, '/b/1')])
+        case = {'first_requests': True, 'k': k}
+        sh.case(case, nontrivial=bool(s.switches), klass='first-requests')
+        if s.broken:
+            sh.hit('watchdog-fired')
+            continue
+        sh.hit('schedules:first-requests')
+        later = job(app, '/a')()
+        for (tag, val), p, who in zip(list(res) + [('ok', later)], ('/a', '/b/1', '/a'), ('first', 'second', 'a later one')):
+            got = (val[0].status, val[0].body, val[1]) if tag == 'ok' and val[0].exc is None and len(val[0].sr_calls) == 1 else \
+                (tag, probe.safe_repr(val[0].exc if tag == 'ok' else val)[:200], val[0].sr_calls if tag == 'ok' else None)
+            if got != want[p]:
+                sh.violation('C13/first-requests-interfere', 'the first two requests of an application overlap (preemption after %d steps): '
+                             'the %s request (%s) got %r, on an application of its own it gets %r' % (k, who, p, got, want[p]), case)
+                return
 
 
 def run_shard(sh, spec):
+    if spec.get('kind') == 'first-requests':
+        return first_requests(sh, spec)
     rng = Rng(spec['seed'], PROPERTY, spec['label'])
     sc = Scenario()
     try:
@@ -739,6 +801,8 @@ def run_shard(sh, spec):
 
 
 def replay(sh, case, spec):
+    if case.get('first_requests'):
+        return first_requests(sh, spec)
     if 'wrappers' in case:
         judge_wrappers(sh, case['wrappers'])
         return
